@@ -292,6 +292,9 @@ func SpecMatch(pattern string, hasWild bool, s string) bool {
 //@ func (*EventSubscription).Enqueue
 //@   requires e != nil && e.cache != nil
 //@   defers f
+// (the entry is handed to a worker only when its queue was empty and no query event holds it:
+// while one does, the worker that applies the answers is the only one on the entry)
+//@   assert[C03,C13] send#1: old(len(e.queue)) == 0 && old(e.locks) == nil
 //@   resolves[C07] f exactly-once
 //@   ensures[C03] len(e.queue) == old(len(e.queue)) + 1 && e.queue[len(e.queue)-1] == f
 //@   ensures[C03] forall k int :: 0 <= k && k < old(len(e.queue)) ==> e.queue[k] == old(e.queue[k])
@@ -349,14 +352,14 @@ func SpecMatch(pattern string, hasWild bool, s string) bool {
 //@   ensures[C01] result ==> r.Collection == rs.collection && r.Collection != nil
 //@   assumes predLoadedOK(rs)
 //@   ensures predLoadedOK(rs)
-//@   ensures[C01,C02,C15] result ==> old(rs.state) == stateCollection && 0 <= r.Idx && r.Idx <= old(len(rs.collection.Values)) &&
+//@   ensures[C01,C02,C03,C15] result ==> old(rs.state) == stateCollection && 0 <= r.Idx && r.Idx <= old(len(rs.collection.Values)) &&
 //@       len(rs.collection.Values) == old(len(rs.collection.Values)) + 1 && rs.version == old(rs.version) + 1 && r.Update &&
 //@       rs.collection.Values[r.Idx] == r.Value && r.Value.Type >= codec.ValueTypePrimitive
 //@   ensures[C01] result ==> (forall k int :: 0 <= k && k < r.Idx ==> rs.collection.Values[k] == old(rs.collection.Values[k])) &&
 //@       (forall k int :: r.Idx < k && k < len(rs.collection.Values) ==> rs.collection.Values[k] == old(rs.collection.Values[k-1]))
 //@   ensures[C01] result ==> fresh(rs.collection) && old(rs.collection).Values == old(rs.collection.Values) &&
 //@       (forall k int :: 0 <= k && k < old(len(rs.collection.Values)) ==> old(rs.collection).Values[k] == old(rs.collection.Values[k]))
-//@   ensures[C01,C15] !result ==> rs.collection == old(rs.collection) && rs.model == old(rs.model) && rs.version == old(rs.version) && rs.state == old(rs.state) &&
+//@   ensures[C01,C03,C15] !result ==> rs.collection == old(rs.collection) && rs.model == old(rs.model) && rs.version == old(rs.version) && rs.state == old(rs.state) &&
 //@       r.Update == old(r.Update) && r.Idx == old(r.Idx)
 //@   safety[C15]
 
@@ -366,14 +369,14 @@ func SpecMatch(pattern string, hasWild bool, s string) bool {
 //@   ensures[C01] result ==> r.Collection == rs.collection && r.Collection != nil
 //@   assumes predLoadedOK(rs)
 //@   ensures predLoadedOK(rs)
-//@   ensures[C01,C02,C15] result ==> old(rs.state) == stateCollection && 0 <= r.Idx && r.Idx < old(len(rs.collection.Values)) &&
+//@   ensures[C01,C02,C03,C15] result ==> old(rs.state) == stateCollection && 0 <= r.Idx && r.Idx < old(len(rs.collection.Values)) &&
 //@       len(rs.collection.Values) == old(len(rs.collection.Values)) - 1 && rs.version == old(rs.version) + 1 && r.Update &&
 //@       (forall i int :: i == r.Idx ==> r.Value == old(rs.collection.Values[i]))
 //@   ensures[C01] result ==> (forall k int :: 0 <= k && k < r.Idx ==> rs.collection.Values[k] == old(rs.collection.Values[k])) &&
 //@       (forall k int :: r.Idx <= k && k < len(rs.collection.Values) ==> rs.collection.Values[k] == old(rs.collection.Values[k+1]))
 //@   ensures[C01] result ==> fresh(rs.collection) && old(rs.collection).Values == old(rs.collection.Values) &&
 //@       (forall k int :: 0 <= k && k < old(len(rs.collection.Values)) ==> old(rs.collection).Values[k] == old(rs.collection.Values[k]))
-//@   ensures[C01,C15] !result ==> rs.collection == old(rs.collection) && rs.model == old(rs.model) && rs.version == old(rs.version) && rs.state == old(rs.state) &&
+//@   ensures[C01,C03,C15] !result ==> rs.collection == old(rs.collection) && rs.model == old(rs.model) && rs.version == old(rs.version) && rs.state == old(rs.state) &&
 //@       r.Update == old(r.Update) && r.Idx == old(r.Idx)
 //@   safety[C15]
 
@@ -385,9 +388,9 @@ func SpecMatch(pattern string, hasWild bool, s string) bool {
 //@   requires rs != nil && r != nil && rs.e != nil && rs.e.cache != nil
 //@   assumes predLoadedOK(rs) && (rs.state == stateModel ==> rs.model.Values != nil)
 //@   ensures predLoadedOK(rs) && (rs.state == stateModel ==> rs.model.Values != nil)
-//@   ensures[C01,C02,C15] !result ==> rs.version == old(rs.version) && rs.model == old(rs.model) && rs.collection == old(rs.collection) && rs.state == old(rs.state) &&
+//@   ensures[C01,C02,C03,C15] !result ==> rs.version == old(rs.version) && rs.model == old(rs.model) && rs.collection == old(rs.collection) && rs.state == old(rs.state) &&
 //@       r.Update == old(r.Update)
-//@   ensures[C01,C02] result ==> old(rs.state) == stateModel && rs.version == old(rs.version) + 1 && r.Update && fresh(rs.model) &&
+//@   ensures[C01,C02,C03] result ==> old(rs.state) == stateModel && rs.version == old(rs.version) + 1 && r.Update && fresh(rs.model) &&
 //@       r.OldValues == old(rs.model.Values) && card(r.Changed) > 0
 //@   ensures[C01] result ==> (forall k string :: has(r.OldValues, k) == old(has(rs.model.Values, k)) && r.OldValues[k] == old(rs.model.Values[k]))
 //@   ensures[C01] result ==> (forall k string :: has(r.Changed, k) && r.Changed[k].Type == codec.ValueTypeDelete ==> !has(rs.model.Values, k) && has(r.OldValues, k))
@@ -595,6 +598,15 @@ func SpecMatch(pattern string, hasWild bool, s string) bool {
 //@   ensures[C12] callcount("handleResetResource") == old(callcount("handleResetResource")) + 1 && callcount("handleResetAccess") == old(callcount("handleResetAccess"))
 //@ closure (*Cache).handleSystemReset#2
 //@   ensures[C06,C12] callcount("handleResetAccess") == old(callcount("handleResetAccess")) + 1 && callcount("handleResetResource") == old(callcount("handleResetResource"))
+
+// Legacy (protocol 1.2.0) encoding of a collection: the encoding shared with current-protocol
+// clients - cached in the snapshot - is handed out only for a collection without soft references
+// and data values, whose two encodings coincide.
+//@ func (*Legacy120Collection).MarshalJSON
+//@   requires c != nil
+//@   assert[C01] return#1: forall k int :: 0 <= k && k < len(c.Values) ==> c.Values[k].Type != codec.ValueTypeSoftReference && c.Values[k].Type != codec.ValueTypeData
+//@   loop 1 invariant forall k int :: 0 <= k && k < rangeidx1 ==> c.Values[k].Type != codec.ValueTypeSoftReference && c.Values[k].Type != codec.ValueTypeData
+//@   safety[C15]
 
 // --- eviction (C09) ---------------------------------------------------------------------------
 
